@@ -10,7 +10,7 @@ ROOT = os.path.dirname(os.path.dirname(os.path.abspath(__file__)))
 ap = argparse.ArgumentParser()
 ap.add_argument("seed_id"); ap.add_argument("prop"); ap.add_argument("patch"); ap.add_argument("demo"); ap.add_argument("meta")
 ap.add_argument("--checks", default=None); ap.add_argument("--tiers", default="quick,thorough")
-ap.add_argument("--no-suite", action="store_true")
+ap.add_argument("--no-suite", action="store_true"); ap.add_argument("--quick-checks", default=""); ap.add_argument("--mode", default="both", choices=["both", "checks", "suite"])
 a = ap.parse_args()
 
 
@@ -18,7 +18,7 @@ def sh(cmd, **kw):
     return subprocess.run(cmd, shell=True, capture_output=True, text=True, **kw)
 
 
-wt = f"/tmp/ev/wt_{a.seed_id}"
+wt = f"/tmp/ev/wt_{a.seed_id}_{a.mode}"
 os.makedirs("/tmp/ev", exist_ok=True)
 sh(f"git -C /repo worktree remove --force {wt}")
 if sh(f"git -C /repo worktree add -q --detach {wt} HEAD").returncode != 0:
@@ -36,10 +36,11 @@ try:
     report["demo_with_change_rc"] = r1.returncode
     report["demo_with_change_tail"] = (r1.stdout + r1.stderr)[-300:]
     caught = {}
-    checks = a.checks.split(",") if a.checks else [a.prop]
+    checks = (a.checks.split(",") if a.checks else [a.prop]) if a.mode != "suite" else []
     evd = f"/tmp/ev/evidence_{a.seed_id}"
-    for c in checks:
-        for tier in a.tiers.split(","):
+    qc = [c for c in a.quick_checks.split(",") if c and c not in checks] if a.mode != "suite" else []
+    for c in checks + qc:
+        for tier in (a.tiers.split(",") if c in checks else ["quick"]):
             t0 = time.time()
             r = sh(f"cd {ROOT} && VERIF_REPO={wt} VERIF_EVIDENCE_DIR={evd} ./check {c} --tier {tier}")
             sig = next((l.strip() for l in r.stdout.splitlines() if l.strip().startswith("sig=")), "")
@@ -47,9 +48,10 @@ try:
             if r.returncode == 1:
                 break
     shutil.rmtree(evd, ignore_errors=True)
-    report["checks"] = caught
-    report["caught_by"] = sorted(c for c, v in caught.items() if any(x["rc"] == 1 for x in v.values()))
-    if not a.no_suite:
+    if a.mode != "suite":
+        report["checks"] = caught
+        report["caught_by"] = sorted(c for c, v in caught.items() if any(x["rc"] == 1 for x in v.values()))
+    if not a.no_suite and a.mode != "checks":
         t = sh(f"BSL_REPO={wt} /venv/bin/python {ROOT}/tools/baseline_compare.py 8")
         report["suite_with_change"] = t.stdout.strip()[-600:]
         report["suite_passes"] = t.returncode == 0
@@ -61,6 +63,18 @@ os.makedirs(d, exist_ok=True)
 shutil.copy(a.patch, os.path.join(d, "patch.diff"))
 shutil.copy(a.demo, os.path.join(d, "demo.py"))
 meta = json.load(open(a.meta))
+mp = os.path.join(d, "meta.json")
+import fcntl
+_lk = open(os.path.join(d, ".lock"), "w"); fcntl.flock(_lk, fcntl.LOCK_EX)
+if a.mode != "both" and os.path.exists(mp):  # merge with the other half of the evaluation
+    try:
+        prev = json.load(open(mp)).get("evaluated", {})
+        if prev.get("base_commit") == report["base_commit"]:
+            report = dict(prev, **report)
+        elif a.mode == "checks":
+            report = dict({k: v for k, v in prev.items() if k.startswith("suite")}, **report)
+    except Exception:
+        pass
 meta.update({"evaluated": report, "what_i_ran": [
     f"scratch worktree of /repo@{report['base_commit']} under /tmp/ev (removed afterwards)",
     f"demo on the unchanged tree: rc={report.get('demo_on_unchanged_rc')}; with the change: rc={report.get('demo_with_change_rc')}",
